@@ -34,7 +34,8 @@ META = {
                    "tilted planes, and one that reverses the plane normal); z3 decides that volumes and face areas are "
                    "unchanged, that cell and face centres are mapped by the motion and that sign * normal is mapped by R",
     "assumptions": ["floats as exact reals", f"2x2 Cartesian / structured triangle grids with one node displaced by symbolic "
-                    f"(dx, dy) in [-{PERT}, {PERT}]^2; 1-d grids with 3 cells and symbolic nodes",
+                    f"(dx, dy) in [-{PERT}, {PERT}]^2, also with the node order of every third face reversed (fallback branch for "
+                    f"inconsistently oriented grids); 1-d grids with 3 cells and symbolic nodes",
                     "translation components in [-4, 4]", "rotations: the seven rational matrices listed in ROT (det = 1 checked)"],
     "stubs": ["np.sqrt(x): |t| when x is syntactically t*t, otherwise fresh r >= 0 with r*r == x"],
     "outside": ["rotations by angles without rational sine / cosine (a symbolic rotation needs the nested square roots of "
@@ -49,6 +50,10 @@ def shards(tier, seed):
         for node in ((4, 0) if tier == "quick" else (4, 0, 1, 5)):
             for r in rots:
                 out.append({"dim": 2, "kind": kind, "node": node, "rot": r})
+    # grids that are not consistently oriented (fallback branch of the 2-d geometry computation)
+    for kind in ("cartflip", "triflip"):
+        for r in (["x90", "tilt"] if tier == "quick" else list(ROT)):
+            out.append({"dim": 2, "kind": kind, "node": 4, "rot": r})
     for r in (["z345", "tilt"] if tier == "quick" else list(ROT)):
         out.append({"dim": 1, "n": 3, "rot": r})
     return out
